@@ -789,7 +789,9 @@ func (loc *Location) ListRules(ctx *Context, includeInherited bool) ([]string, e
 
 	loc.stats.IncErrors(err)
 	Inc(&loc.stats.TotalTime, timer.Stop())
-	return acc, nil
+	// (Report the error: an empty list would look like "no rules"
+	// when an ancestor refused the search or the parents loop.)
+	return acc, err
 }
 
 // getParents is current just a wrapper around 'GetProp' to read a
